@@ -35,8 +35,8 @@ structure St where
   port : Nat := 0
   eventClock : Nat := 1
   queryClock : Nat := 1
-  /-- pending query (ltime, id width) for `respond` -/
-  pending : Option (Nat × Nat) := none
+  /-- pending query (ltime, id width, timeout) for `respond` -/
+  pending : Option (Nat × Nat × Int) := none
   deriving Inhabited
 
 def rep (c : UInt8) (n : Nat) : Bytes := List.replicate n c
@@ -159,7 +159,7 @@ def step (s : St) (op : List String) (impl : String) : LineOut St :=
         let q := mkQuery s w nl pl nf rf (e == "t") to
         let enc := qEncLen q
         if (query s.cfg enc).ok then
-          { state := { s with queryClock := s.queryClock + 1, pending := some (s.queryClock, w) },
+          { state := { s with queryClock := s.queryClock + 1, pending := some (s.queryClock, w, to) },
             model := some s!"ok delivered=1 sent={enc} idw={w}", monitor := mon }
         else { state := s, model := some "err-size delivered=0 sent=-", monitor := mon }
       | none =>
@@ -171,7 +171,7 @@ def step (s : St) (op : List String) (impl : String) : LineOut St :=
     | _, _, _, _, _ => { state := s, model := some "bad-op" }
   | ["respond", a] =>
     match parseLenOpt a, s.pending with
-    | some pl, some (lt, w) =>
+    | some pl, some (lt, w, to) =>
       let r : QueryResp := { ltime := lt, id := idOfWidth w, from_ := s.nodeName, flags := 0, payload := optRep 114 pl }
       let len := respEncLen r
       let out := respondWith s.cfg len
@@ -180,7 +180,10 @@ def step (s : St) (op : List String) (impl : String) : LineOut St :=
         match panicMon with
         | some m => some m
         | none => if pk.any (· > s.cfg.rLimit) then some ("response-oversize-sent", s!"response packet of {pk} bytes with limit {s.cfg.rLimit}") else none
-      if out.effects.contains "SendToAddress" then
+      if to < 10000000000 then
+        -- the query's deadline (now + timeout) may have passed: the outcome depends on wall-clock time
+        { state := { s with pending := if firstTok impl == "ok" then none else s.pending }, model := none, monitor := mon }
+      else if out.effects.contains "SendToAddress" then
         { state := { s with pending := none }, model := some s!"ok pkts={len}", monitor := mon }
       else { state := s, model := some "err-size pkts=-", monitor := mon }
     | _, _ => { state := s, model := some "bad-op" }
